@@ -766,6 +766,10 @@ class FileProxy:
     def close(self):
         r = self._f.close()
         CTX.rec.io_point(self._kind, 'close')
+        if self._kind == 'out' and os.path.abspath(
+                os.fspath(self._path)) == CTX.outpath:
+            # in-place writer: the rewrite ends when the file is closed
+            CTX.rec.fallback_end()
         return r
 
     def __enter__(self):
@@ -815,6 +819,8 @@ def sim_open(path, mode='r', *a, **k):
     if kind == 'in':
         CTX.rec.input_write_opened(mode)
         return builtins.open(path, mode, *a, **k)
+    if kind == 'out':
+        CTX.rec.fallback_begin()
     CTX.rec.io_point(kind, 'pre-open')
     fl = CTX.faults
     if fl is not None and kind == 'cand':
@@ -837,6 +843,12 @@ class _OsForNodeio:
                 CTX.rec.io_point('out', 'pre-' + name)
                 r = v(*a, **k)
                 CTX.rec.io_point('out', name)
+                if name in ('replace', 'rename') and len(a) > 1:
+                    try:
+                        if os.path.abspath(os.fspath(a[1])) == CTX.outpath:
+                            CTX.rec.fallback_end()
+                    except TypeError:
+                        pass
                 return r
 
             return wrapped
